@@ -457,15 +457,27 @@ where
         K: std::hash::Hash + Eq + Clone,
         F: Fn(&simplicity::node::Node<N>) -> Option<K>,
     {
-        // `None`: the policy gives this node no identity; every occurrence is its own class
+        // `None`: the policy gives this node no identity; every occurrence is its own class.
+        // Whether a child still has to be walked is decided for BOTH children when the parent is first met (as the
+        // library's iterator does); a child walked although its class is yielded meanwhile -- by a node with the same
+        // identity root but other children -- still has its own children yielded first and is then skipped itself.
         let k = class(n);
+        let known = |c: &simplicity::node::Node<N>, seen: &std::collections::HashMap<K, usize>| class(c).and_then(|k| seen.get(&k).copied());
+        let lk = n.left_child().map(|c| known(c, seen));
+        let rk = n.right_child().map(|c| known(c, seen));
+        let l = n.left_child().map(|c| match lk.unwrap() {
+            Some(i) => i,
+            None => go(c, class, seen, out),
+        });
+        let r = n.right_child().map(|c| match rk.unwrap() {
+            Some(i) => i,
+            None => go(c, class, seen, out),
+        });
         if let Some(k) = &k {
             if let Some(i) = seen.get(k) {
                 return *i;
             }
         }
-        let l = n.left_child().map(|c| go(c, class, seen, out));
-        let r = n.right_child().map(|c| go(c, class, seen, out));
         // a child may have put this class in already only if the DAG had a cycle; it has none
         let idx = out.len();
         out.push((n as *const _ as usize, l, r));
